@@ -510,7 +510,8 @@ func (c *Compiler) listElemCode(typ *runtime.Type) (Code, error) {
 
 func (c *Compiler) mapKeyCode(typ *runtime.Type) (Code, error) {
 	switch {
-	case c.implementsMarshalText(typ):
+	case typ.Kind() != reflect.String && c.implementsMarshalText(typ):
+		// a key of a string kind is its own text even when the type has MarshalText ( as in encoding/json )
 		return c.marshalTextCode(typ)
 	}
 	switch typ.Kind() {
